@@ -322,8 +322,8 @@ def get_attr(interp, o, attr, st, node):
                 return arr_transpose(A_) if A_ is not None and not is_opaque(A_) else Opaque("T of a partially filled local array")
             return arr_transpose(o)
         if attr in ("real", "imag"):
-            A = as_arr(o)
-            if A is None: return Opaque("real/imag of local array")
+            A = local_to_arr(o, st) if isinstance(o, LocalArr) else as_arr(o)
+            if A is None or is_opaque(A): return Opaque("real/imag of local array")
             return lift1((lambda x: x.real()) if attr == "real" else (lambda x: x.imag()), A)
         if attr == "dtype": return Lib("dtype.of")
         return BoundMethod(o, attr)
@@ -714,6 +714,15 @@ def store_subscript(interp, o, t, v, st, aug):
         # boolean-mask store into a local array that is completely defined (zeros/ones, or filled element by element in a loop)
         A_ = local_to_arr(o) if (o.stores or o.fill is not None) else None
         if (A_ is None or is_opaque(A_)) and o.stores: A_ = local_to_arr(o, st)
+        M_ = idx[0]
+        if A_ is not None and not is_opaque(A_) and A_.ndim == 1 and M_.ndim == 1 and not isinstance(v, (Arr, ArrParam, Masked, LocalArr)) and not aug:
+            # in place: the array object itself (which callers and other names may share) receives  a[i] = v where mask[i] else a[i]
+            (av, ac), = A_.axes; (mv, mc), = M_.axes
+            mb = subst_val(M_.body, {mv: X.var(av)})
+            body = pv_apply(lambda m, new, old: new if m is True else old if m is False else Opaque("mask"), mb, v, A_.body)
+            ext = tuple(("under", e_[0], e_[1]) for e_ in getattr(st, "under", []) if len(e_) < 3 or e_[2] is None or o.ident in e_[2])
+            o.stores.append((((av, ac),), (X.var(av),), body) + ext)
+            return
         if A_ is not None and not is_opaque(A_): o = A_
     if isinstance(o, LocalArr) and getattr(st, "under", None):
         n0_ = len(o.stores)
